@@ -123,6 +123,24 @@ def eval_extreme(args):
     return dict(ver=ver, type=t, value=v, role=role, bad=bad) if bad else None
 
 
+def eval_blocked(args):
+    ver, hb, ab, hB = args
+    import xmlschema
+    from . import C07
+    try: s = C07.subst_schema(ver, hb, ab, hB)
+    except xmlschema.XMLSchemaException: return dict(args=args, cases=0, bad=[])
+    XSI = 'xmlns:xsi="http://www.w3.org/2001/XMLSchema-instance"'
+    docs = ['<r><m1><a>x</a><b>x</b></m1></r>', '<r><m2><a>x</a><b>x</b><c>x</c></m2></r>', '<r><h><a>x</a></h></r>', f'<r><h {XSI} xsi:type="E1"><a>x</a><b>x</b></h></r>',
+            f'<r><m1 {XSI} xsi:type="E2"><a>x</a><b>x</b><c>x</c></m1></r>', f'<r><m1 {XSI} xsi:type="Nope"><a>x</a></m1></r>', f'<r><h {XSI} xsi:type="R1"><a>x</a></h></r>', '<r><other><a>x</a></other></r>', '<r><m1/></r>']
+    bad = []; n = 0
+    for d in docs:
+        for name, f in (('iter_errors', lambda: list(s.iter_errors(d))), ('is_valid', lambda: s.is_valid(d)), ('decode_lax', lambda: s.decode(d, validation='lax')), ('decode_skip', lambda: s.decode(d, validation='skip'))):
+            n += 1
+            try: f()
+            except Exception as e: bad.append((d, f'{name} raised {type(e).__name__}: {str(e)[:80]}'))
+    return dict(args=args, cases=n, bad=bad[:3])
+
+
 def run(tier, seed, open_findings):
     rng = random.Random(seed); n = 1200 if tier == 'thorough' else 300
     docs = []
@@ -158,6 +176,13 @@ def run(tier, seed, open_findings):
     out.append(result('C11.extreme_values_in_fields_and_facets', f'{len(ETYPES)} builtin types x {len(EVALUES)} extreme values x (key field, attribute key field, enumeration, range facet) x 2 classes x 3 entry points',
                       len(ejobs) * 3, [dict(case=dict(extreme=True, ver=r['ver'], type=r['type'], value=r['value'], role=r['role']), observed=r['bad'], required='a verdict or a library exception')
                                        for r in eres if r], exhaustive=True, samples=[dict(type='gYear', value='99999999999999999999', role='key')]))
+    # invalid content whose error is raised by a helper (blocked substitutions, blocked xsi:type derivations on a substitute): lax and skip never raise
+    from . import C07
+    bjobs = [(ver, hb, ab, hB) for ver in ('1.0', '1.1') for hb in (None, 'extension', 'restriction', 'substitution', '#all') for ab in (False, True) for hB in (None, 'extension', '#all')]
+    bres = pmap(eval_blocked, bjobs, procs=8)
+    out.append(result('C11.lax_never_raises_on_blocked_substitutions', f'{len(bjobs)} substitution-group schemas (head block x abstract member x type block x 2 classes) x 9 documents x (iter_errors, is_valid, lax decode, skip decode)',
+                      sum(r['cases'] for r in bres), [dict(case=dict(blocked=True, args=list(r['args']), doc=b[0]), observed=b[1], required='a verdict / collected errors: lax and skip never raise') for r in bres for b in r['bad']],
+                      exhaustive=True, samples=[dict(head_block='extension', doc='<r><m1><a>x</a><b>x</b></m1></r>')]))
     # deep nesting well within MAX_XML_DEPTH: validation must not end in RecursionError
     deep = []; known = {}
     for ver in ('1.0', '1.1'):
@@ -177,6 +202,9 @@ def run(tier, seed, open_findings):
 
 
 def replay(check_name, case):
+    if case.get('blocked'):
+        r = eval_blocked(tuple(case['args'])); mine = [b for b in r['bad'] if b[0] == case['doc']]
+        return dict(ok=not mine, observed=mine, required='lax and skip never raise')
     if case.get('extreme'):
         r = eval_extreme((case['ver'], case['type'], case['value'], case['role']))
         return dict(ok=r is None, observed=r, required='a verdict or a library exception')
